@@ -83,27 +83,31 @@ package compiler
 //
 // C15 - schema transformations have their documented effect and touch nothing else.
 //
-// Matching is a read-only function of the reference and the object/field (strings.EqualFold on the
-// object name, exact comparison on the package).
+// Matching: the package is compared exactly, object and field names case-insensitively
+// (strings.EqualFold). The matchers are expanded at their call sites.
+//@ spec objMatch(ref, o) = o.SelfRef.ReferredPkg == ref.Package && eqfold(o.SelfRef.ReferredType, ref.Object)
+//@ spec refMatch(ref, pkg, name) = pkg == ref.Package && eqfold(name, ref.Object)
+//@ spec fieldMatch(ref, o, f) = o.SelfRef.ReferredPkg == ref.Package && eqfold(o.Name, ref.Object) && eqfold(f.Name, ref.Field)
+//@ spec anyObjMatch(refs, o) = exists r: int :: 0 <= r && r < len(refs) && objMatch(refs[r], o)
+//
 //@ func ObjectReference.Matches
 //@   property C15
-//@   pure
-//@   modifies nothing
+//@   inline
 //
 //@ func ObjectReference.MatchesRef
 //@   property C15
-//@   pure
-//@   modifies nothing
-//
-//@ func ObjectReferences.Matches
-//@   property C15
-//@   pure
-//@   modifies nothing
+//@   inline
 //
 //@ func FieldReference.Matches
 //@   property C15
-//@   pure
+//@   inline
+//
+//@ func ObjectReferences.Matches
+//@   property C15
 //@   modifies nothing
+//@   ensures  result == anyObjMatch(refs, object)
+//@   loop 0:
+//@     invariant none: forall r: int :: 0 <= r && r <= $i ==> !objMatch(refs[r], object)
 //
 // trailExtended(new, old): new is old plus one entry at the end.
 //@ spec trailExtended(n, o) = len(n) == len(o) + 1 && (forall t: int :: 0 <= t && t < len(o) ==> n[t] == o[t])
@@ -115,15 +119,16 @@ package compiler
 //@   requires pass != nil
 //@   modifies object.PassesTrail[len(object.PassesTrail)]
 //@   ensures  noerr: result.1 == nil
-//@   ensures  untouched: !call("compiler.ObjectReference.Matches", pass.Object, object) ==> result.0 == object
-//@   ensures  effect: call("compiler.ObjectReference.Matches", pass.Object, object) ==> result.0.Type == pass.As && result.0.Name == object.Name && result.0.SelfRef == object.SelfRef
-//@   ensures  comments: call("compiler.ObjectReference.Matches", pass.Object, object) ==> (base(pass.Comments) == 0 ==> result.0.Comments == object.Comments) && (base(pass.Comments) != 0 ==> result.0.Comments == pass.Comments)
-//@   ensures  trail: call("compiler.ObjectReference.Matches", pass.Object, object) ==> trailExtended(result.0.PassesTrail, object.PassesTrail)
+//@   ensures  untouched: !objMatch(pass.Object, object) ==> result.0 == object
+//@   ensures  effect: objMatch(pass.Object, object) ==> result.0.Type == pass.As && result.0.Name == object.Name && result.0.SelfRef == object.SelfRef
+//@   ensures  comments: objMatch(pass.Object, object) ==> (base(pass.Comments) == 0 ==> result.0.Comments == object.Comments) && (base(pass.Comments) != 0 ==> result.0.Comments == pass.Comments)
+//@   ensures  trail: objMatch(pass.Object, object) ==> trailExtended(result.0.PassesTrail, object.PassesTrail)
 //
 // append_comment_objects: every object gets the comment appended; nothing else changes.
 //@ func (*AppendCommentObjects).processObject
 //@   property C15
 //@   requires pass != nil
+//@   requires sep: base(object.Comments) == 0 || base(object.Comments) != base(object.PassesTrail)
 //@   modifies object.PassesTrail[len(object.PassesTrail)], object.Comments[len(object.Comments)]
 //@   ensures  noerr: result.1 == nil
 //@   ensures  kept: result.0.Name == object.Name && result.0.Type == object.Type && result.0.SelfRef == object.SelfRef
@@ -135,9 +140,122 @@ package compiler
 //@ func (*SchemaSetIdentifier).Process
 //@   property C15
 //@   requires pass != nil && (forall s: int :: 0 <= s && s < len(schemas) ==> schemas[s] != nil)
-//@   modifies schemas[*].Metadata.Identifier
+//@   modifies schemas[*].Metadata
 //@   ensures  same: result.0 == schemas && result.1 == nil
 //@   ensures  effect: forall s: int :: 0 <= s && s < len(schemas) ==> (schemas[s].Package == pass.Package ==> schemas[s].Metadata.Identifier == pass.Identifier) && (schemas[s].Package != pass.Package ==> schemas[s].Metadata.Identifier == old(schemas[s].Metadata.Identifier))
 //@   loop 0:
-//@     invariant done: forall s: int :: 0 <= s && s <= $i ==> (schemas[s].Package == pass.Package ==> schemas[s].Metadata.Identifier == pass.Identifier) && (schemas[s].Package != pass.Package ==> schemas[s].Metadata.Identifier == old(schemas[s].Metadata.Identifier))
-//@     invariant todo: forall s: int :: $i < s && s < len(schemas) ==> schemas[s].Metadata.Identifier == old(schemas[s].Metadata.Identifier)
+//@     invariant done: forall s: int :: 0 <= s && s <= $i && schemas[s].Package == pass.Package ==> schemas[s].Metadata.Identifier == pass.Identifier
+//@     invariant others: forall s: int :: 0 <= s && s < len(schemas) && schemas[s].Package != pass.Package ==> schemas[s].Metadata.Identifier == old(schemas[s].Metadata.Identifier)
+//
+//@ func (*SchemaSetEntrypoint).Process
+//@   property C15
+//@   requires pass != nil && (forall s: int :: 0 <= s && s < len(schemas) ==> schemas[s] != nil)
+//@   modifies schemas[*].EntryPoint, schemas[*].EntryPointType
+//@   ensures  same: result.0 == schemas && result.1 == nil
+//@   ensures  effect: forall s: int :: 0 <= s && s < len(schemas) && schemas[s].Package == pass.Package ==> schemas[s].EntryPoint == pass.EntryPoint && schemas[s].EntryPointType.Kind == ast.KindRef && schemas[s].EntryPointType.Ref.ReferredPkg == pass.Package && schemas[s].EntryPointType.Ref.ReferredType == pass.EntryPoint
+//@   ensures  others: forall s: int :: 0 <= s && s < len(schemas) && schemas[s].Package != pass.Package ==> schemas[s].EntryPoint == old(schemas[s].EntryPoint) && schemas[s].EntryPointType == old(schemas[s].EntryPointType)
+//@   loop 0:
+//@     invariant done: forall s: int :: 0 <= s && s <= $i && schemas[s].Package == pass.Package ==> schemas[s].EntryPoint == pass.EntryPoint && schemas[s].EntryPointType.Kind == ast.KindRef && schemas[s].EntryPointType.Ref.ReferredPkg == pass.Package && schemas[s].EntryPointType.Ref.ReferredType == pass.EntryPoint
+//@     invariant others: forall s: int :: 0 <= s && s < len(schemas) && schemas[s].Package != pass.Package ==> schemas[s].EntryPoint == old(schemas[s].EntryPoint) && schemas[s].EntryPointType == old(schemas[s].EntryPointType)
+//
+// rename_object (reference part): a reference to exactly (From.Package, From.Object) now names To;
+// any other reference is returned as it was. The referred name is updated in place (def.Ref is shared
+// with the type the visitor handed over).
+//@ func (*RenameObject).processRef
+//@   property C15
+//@   requires pass != nil && def.Kind == ast.KindRef
+//@   modifies def.Ref.ReferredType
+//@   ensures  noerr: result.1 == nil
+//@   ensures  same: result.0 == def
+//@   ensures  pkg: def.Ref.ReferredPkg == old(def.Ref.ReferredPkg)
+//@   ensures  renamed: old(def.Ref.ReferredPkg == pass.From.Package && def.Ref.ReferredType == pass.From.Object) ==> def.Ref.ReferredType == pass.To
+//@   ensures  untouched: !old(def.Ref.ReferredPkg == pass.From.Package && def.Ref.ReferredType == pass.From.Object) ==> def.Ref.ReferredType == old(def.Ref.ReferredType)
+//
+// replace_reference: a reference matching From becomes a fresh reference to To; any other reference
+// is returned as it was; nothing pre-existing is written.
+//@ func (*ReplaceReference).processRef
+//@   property C15
+//@   requires pass != nil && def.Kind == ast.KindRef
+//@   modifies nothing
+//@   ensures  noerr: result.1 == nil
+//@   ensures  untouched: !refMatch(pass.From, old(def.Ref.ReferredPkg), old(def.Ref.ReferredType)) ==> result.0 == def
+//@   ensures  replaced: refMatch(pass.From, old(def.Ref.ReferredPkg), old(def.Ref.ReferredType)) ==> result.0.Kind == ast.KindRef && result.0.Ref != nil && fresh(result.0.Ref) && result.0.Ref.ReferredPkg == pass.To.Package && result.0.Ref.ReferredType == pass.To.Object
+//
+// constant_to_enum: a selected object whose type is a concrete string scalar becomes a one-member
+// enum of that string; every other object is returned as it was.
+//@ spec constantString(o) = o.Type.Kind == ast.KindScalar && o.Type.Scalar.Value != nil && o.Type.Scalar.ScalarKind == ast.KindString
+//@ func (*ConstantToEnum).processObject
+//@   property C15
+//@   requires pass != nil
+//@   modifies spare-capacity
+//@   ensures  noerr: result.1 == nil
+//@   ensures  untouched: !(anyObjMatch(pass.Objects, object) && constantString(object)) ==> result.0 == object
+//@   ensures  effect: anyObjMatch(pass.Objects, object) && constantString(object) ==> result.0.Name == object.Name && result.0.SelfRef == object.SelfRef && result.0.Comments == object.Comments && result.0.Type.Kind == ast.KindEnum && len(result.0.Type.Enum.Values) == 1
+//@   ensures  trail: anyObjMatch(pass.Objects, object) && constantString(object) ==> trailExtended(result.0.PassesTrail, object.PassesTrail)
+//
+// add_object: the new object is registered for schemas of the selected package only; the schema
+// itself is returned as it was.
+//@ func (*AddObject).processSchema
+//@   property C15
+//@   requires pass != nil && schema != nil && visitor != nil && wf(visitor.newObjects)
+//@   modifies visitor.newObjects.order, visitor.newObjects.records[*], visitor.newObjects.order[*], spare-capacity
+//@   ensures  same: result.0 == schema && result.1 == nil
+//@   ensures  otherpkg: schema.Package != pass.Object.Package ==> len(visitor.newObjects.order) == old(len(visitor.newObjects.order)) && (forall k: string :: visitor.newObjects.records.has(k) == old(visitor.newObjects.records.has(k)))
+//
+// retype_field: the first field matching the reference gets the new type (and comments when given);
+// every other field - and every object that is not a struct - is left as it was.
+//@ spec firstFieldMatch(ref, o, fields, i) = fieldMatch(ref, o, fields[i]) && (forall j: int :: 0 <= j && j < i ==> !fieldMatch(ref, o, fields[j]))
+//@ func (*RetypeField).processObject
+//@   property C15
+//@   requires pass != nil
+//@   modifies object.Type.Struct.Fields[*], spare-capacity
+//@   ensures  same: result.0 == object && result.1 == nil
+//@   ensures  retyped: object.Type.Kind == ast.KindStruct ==> (forall i: int :: 0 <= i && i < len(object.Type.Struct.Fields) && old(firstFieldMatch(pass.Field, object, object.Type.Struct.Fields, i)) ==> object.Type.Struct.Fields[i].Type == pass.As && object.Type.Struct.Fields[i].Name == old(object.Type.Struct.Fields[i].Name) && object.Type.Struct.Fields[i].Required == old(object.Type.Struct.Fields[i].Required) && (base(pass.Comments) == 0 ==> object.Type.Struct.Fields[i].Comments == old(object.Type.Struct.Fields[i].Comments)) && (base(pass.Comments) != 0 ==> object.Type.Struct.Fields[i].Comments == pass.Comments))
+//@   ensures  others: object.Type.Kind == ast.KindStruct ==> (forall i: int :: 0 <= i && i < len(object.Type.Struct.Fields) && !old(firstFieldMatch(pass.Field, object, object.Type.Struct.Fields, i)) ==> object.Type.Struct.Fields[i] == old(object.Type.Struct.Fields[i]))
+//@   loop 0:
+//@     invariant unchanged: forall j: int :: 0 <= j && j < len(object.Type.Struct.Fields) ==> object.Type.Struct.Fields[j] == old(object.Type.Struct.Fields[j])
+//@     invariant nomatch: forall j: int :: 0 <= j && j <= $i ==> !fieldMatch(pass.Field, object, old(object.Type.Struct.Fields[j]))
+//
+//@ spec anyFieldMatch(refs, o, f) = exists r: int :: 0 <= r && r < len(refs) && fieldMatch(refs[r], o, f)
+//
+// FieldsSetRequired: every field matching one of the references becomes required=true / nullable=false;
+// its name, comments and the rest of its type are kept; every other field is left as it was.
+//@ func (*FieldsSetRequired).processObject
+//@   property C15
+//@   requires pass != nil
+//@   modifies object.Type.Struct.Fields[*], spare-capacity
+//@   ensures  same: result.0 == object && result.1 == nil
+//@   ensures  set: object.Type.Kind == ast.KindStruct ==> (forall k: int :: 0 <= k && k < len(object.Type.Struct.Fields) && old(anyFieldMatch(pass.Fields, object, object.Type.Struct.Fields[k])) ==> object.Type.Struct.Fields[k].Required == true && object.Type.Struct.Fields[k].Type == with(old(object.Type.Struct.Fields[k].Type), "Nullable", false) && object.Type.Struct.Fields[k].Name == old(object.Type.Struct.Fields[k].Name) && object.Type.Struct.Fields[k].Comments == old(object.Type.Struct.Fields[k].Comments))
+//@   ensures  others: object.Type.Kind == ast.KindStruct ==> (forall k: int :: 0 <= k && k < len(object.Type.Struct.Fields) && !old(anyFieldMatch(pass.Fields, object, object.Type.Struct.Fields[k])) ==> object.Type.Struct.Fields[k] == old(object.Type.Struct.Fields[k]))
+//@   loop 0:
+//@     invariant done: forall k: int :: 0 <= k && k <= $i && old(anyFieldMatch(pass.Fields, object, object.Type.Struct.Fields[k])) ==> object.Type.Struct.Fields[k].Required == true && object.Type.Struct.Fields[k].Type == with(old(object.Type.Struct.Fields[k].Type), "Nullable", false) && object.Type.Struct.Fields[k].Name == old(object.Type.Struct.Fields[k].Name) && object.Type.Struct.Fields[k].Comments == old(object.Type.Struct.Fields[k].Comments)
+//@     invariant doneothers: forall k: int :: 0 <= k && k <= $i && !old(anyFieldMatch(pass.Fields, object, object.Type.Struct.Fields[k])) ==> object.Type.Struct.Fields[k] == old(object.Type.Struct.Fields[k])
+//@     invariant todo: forall k: int :: $i < k && k < len(object.Type.Struct.Fields) ==> object.Type.Struct.Fields[k] == old(object.Type.Struct.Fields[k])
+//@   loop 1:
+//@     invariant done: forall k: int :: 0 <= k && k < i && old(anyFieldMatch(pass.Fields, object, object.Type.Struct.Fields[k])) ==> object.Type.Struct.Fields[k].Required == true && object.Type.Struct.Fields[k].Type == with(old(object.Type.Struct.Fields[k].Type), "Nullable", false) && object.Type.Struct.Fields[k].Name == old(object.Type.Struct.Fields[k].Name) && object.Type.Struct.Fields[k].Comments == old(object.Type.Struct.Fields[k].Comments)
+//@     invariant doneothers: forall k: int :: 0 <= k && k < i && !old(anyFieldMatch(pass.Fields, object, object.Type.Struct.Fields[k])) ==> object.Type.Struct.Fields[k] == old(object.Type.Struct.Fields[k])
+//@     invariant todo: forall k: int :: i < k && k < len(object.Type.Struct.Fields) ==> object.Type.Struct.Fields[k] == old(object.Type.Struct.Fields[k])
+//@     invariant name: field.Name == old(object.Type.Struct.Fields[i].Name) && field.Comments == old(object.Type.Struct.Fields[i].Comments)
+//@     invariant none: (forall r: int :: 0 <= r && r <= $i ==> !fieldMatch(pass.Fields[r], object, old(object.Type.Struct.Fields[i]))) ==> field == old(object.Type.Struct.Fields[i]) && object.Type.Struct.Fields[i] == old(object.Type.Struct.Fields[i])
+//@     invariant some: (exists r: int :: 0 <= r && r <= $i && fieldMatch(pass.Fields[r], object, old(object.Type.Struct.Fields[i]))) ==> field.Required == true && field.Type == with(old(object.Type.Struct.Fields[i].Type), "Nullable", false) && field.Name == old(object.Type.Struct.Fields[i].Name) && field.Comments == old(object.Type.Struct.Fields[i].Comments) && object.Type.Struct.Fields[i] == field
+//
+// FieldsSetNotRequired: every field matching one of the references becomes required=false / nullable=true;
+// its name, comments and the rest of its type are kept; every other field is left as it was.
+//@ func (*FieldsSetNotRequired).processObject
+//@   property C15
+//@   requires pass != nil
+//@   modifies object.Type.Struct.Fields[*], spare-capacity
+//@   ensures  same: result.0 == object && result.1 == nil
+//@   ensures  set: object.Type.Kind == ast.KindStruct ==> (forall k: int :: 0 <= k && k < len(object.Type.Struct.Fields) && old(anyFieldMatch(pass.Fields, object, object.Type.Struct.Fields[k])) ==> object.Type.Struct.Fields[k].Required == false && object.Type.Struct.Fields[k].Type == with(old(object.Type.Struct.Fields[k].Type), "Nullable", true) && object.Type.Struct.Fields[k].Name == old(object.Type.Struct.Fields[k].Name) && object.Type.Struct.Fields[k].Comments == old(object.Type.Struct.Fields[k].Comments))
+//@   ensures  others: object.Type.Kind == ast.KindStruct ==> (forall k: int :: 0 <= k && k < len(object.Type.Struct.Fields) && !old(anyFieldMatch(pass.Fields, object, object.Type.Struct.Fields[k])) ==> object.Type.Struct.Fields[k] == old(object.Type.Struct.Fields[k]))
+//@   loop 0:
+//@     invariant done: forall k: int :: 0 <= k && k <= $i && old(anyFieldMatch(pass.Fields, object, object.Type.Struct.Fields[k])) ==> object.Type.Struct.Fields[k].Required == false && object.Type.Struct.Fields[k].Type == with(old(object.Type.Struct.Fields[k].Type), "Nullable", true) && object.Type.Struct.Fields[k].Name == old(object.Type.Struct.Fields[k].Name) && object.Type.Struct.Fields[k].Comments == old(object.Type.Struct.Fields[k].Comments)
+//@     invariant doneothers: forall k: int :: 0 <= k && k <= $i && !old(anyFieldMatch(pass.Fields, object, object.Type.Struct.Fields[k])) ==> object.Type.Struct.Fields[k] == old(object.Type.Struct.Fields[k])
+//@     invariant todo: forall k: int :: $i < k && k < len(object.Type.Struct.Fields) ==> object.Type.Struct.Fields[k] == old(object.Type.Struct.Fields[k])
+//@   loop 1:
+//@     invariant done: forall k: int :: 0 <= k && k < i && old(anyFieldMatch(pass.Fields, object, object.Type.Struct.Fields[k])) ==> object.Type.Struct.Fields[k].Required == false && object.Type.Struct.Fields[k].Type == with(old(object.Type.Struct.Fields[k].Type), "Nullable", true) && object.Type.Struct.Fields[k].Name == old(object.Type.Struct.Fields[k].Name) && object.Type.Struct.Fields[k].Comments == old(object.Type.Struct.Fields[k].Comments)
+//@     invariant doneothers: forall k: int :: 0 <= k && k < i && !old(anyFieldMatch(pass.Fields, object, object.Type.Struct.Fields[k])) ==> object.Type.Struct.Fields[k] == old(object.Type.Struct.Fields[k])
+//@     invariant todo: forall k: int :: i < k && k < len(object.Type.Struct.Fields) ==> object.Type.Struct.Fields[k] == old(object.Type.Struct.Fields[k])
+//@     invariant name: field.Name == old(object.Type.Struct.Fields[i].Name) && field.Comments == old(object.Type.Struct.Fields[i].Comments)
+//@     invariant none: (forall r: int :: 0 <= r && r <= $i ==> !fieldMatch(pass.Fields[r], object, old(object.Type.Struct.Fields[i]))) ==> field == old(object.Type.Struct.Fields[i]) && object.Type.Struct.Fields[i] == old(object.Type.Struct.Fields[i])
+//@     invariant some: (exists r: int :: 0 <= r && r <= $i && fieldMatch(pass.Fields[r], object, old(object.Type.Struct.Fields[i]))) ==> field.Required == false && field.Type == with(old(object.Type.Struct.Fields[i].Type), "Nullable", true) && field.Name == old(object.Type.Struct.Fields[i].Name) && field.Comments == old(object.Type.Struct.Fields[i].Comments) && object.Type.Struct.Fields[i] == field
